@@ -490,7 +490,7 @@ func runC06(c *fw.Ctx) {
 		fw.Bug("ecref self-test: %v", err)
 	}
 	var pos []c06Cfg
-	sessions := c.Pick(2, 40)
+	sessions := c.Pick(2, 200)
 	for cv := 0; cv < 11; cv++ {
 		for _, s := range symref.AllSuites {
 			for arr := 0; arr < 4; arr++ {
@@ -505,7 +505,7 @@ func runC06(c *fw.Ctx) {
 			}
 		}
 		// leading-zero shared secrets
-		for g := 0; g < c.Pick(2, 24); g++ {
+		for g := 0; g < c.Pick(2, 100); g++ {
 			pos = append(pos, c06Cfg{curve: cv, suite: symref.AllSuites[(cv+g)%4], arrange: g % 3, form: g % 3, grind: true})
 		}
 	}
